@@ -79,7 +79,11 @@ pub fn apply(book: &mut Spreadsheet, op: &AOp) -> bool {
         }),
         AOp::CondFmt { sheet, sqref, kind, op, priority, formula, text, bold } => sheet_mut(book, *sheet).map(|s| {
             let mut rule = ConditionalFormattingRule::default();
-            match kind % 3 {
+            match kind % 4 {
+                3 => {
+                    // a rule without child elements (written as an empty <cfRule/>)
+                    rule.set_type(ConditionalFormatValues::DuplicateValues);
+                }
                 0 => {
                     rule.set_type(ConditionalFormatValues::CellIs);
                     rule.set_operator(match op % 6 {
@@ -101,14 +105,19 @@ pub fn apply(book: &mut Spreadsheet, op: &AOp) -> bool {
                 }
             }
             rule.set_priority(*priority);
-            let mut f = Formula::default();
-            f.set_string_value(formula.clone());
-            rule.set_formula(f);
+            if kind % 4 != 3 {
+                let mut f = Formula::default();
+                f.set_string_value(formula.clone());
+                rule.set_formula(f);
+            }
             let mut st = Style::default();
             if *bold {
                 st.get_font_mut().set_bold(true);
             }
-            st.set_background_color("FFFFC7CE");
+            // differential formats with and without a fill
+            if !*bold || priority % 2 == 0 {
+                st.set_background_color(["FFFFC7CE", "FFC6EFCE", "FFFFEB9C"][(*priority as usize) % 3]);
+            }
             rule.set_style(st);
             let mut cf = ConditionalFormatting::default();
             let mut sq = SequenceOfReferences::default();
@@ -357,7 +366,7 @@ pub fn gen_aop(rng: &mut Rng, sheets: usize, alpha: usize, tag: &str, w: &[u32; 
             error: if rng.chance(1, 3) { format!("{}e{}", tag, special_text(rng, alpha)) } else { String::new() },
             allow_blank: rng.chance(1, 2),
         },
-        1 => AOp::CondFmt { sheet, sqref: sq, kind: rng.below(3) as u8, op: rng.below(6) as u8, priority: 1 + rng.below(20) as i32, formula: format!("{}", rng.below(50)), text: format!("{}t", tag.replace(|c: char| !c.is_ascii_alphanumeric(), "")), bold: rng.chance(1, 2) },
+        1 => AOp::CondFmt { sheet, sqref: sq, kind: rng.below(4) as u8, op: rng.below(6) as u8, priority: 1 + rng.below(20) as i32, formula: format!("{}", rng.below(50)), text: format!("{}t", tag.replace(|c: char| !c.is_ascii_alphanumeric(), "")), bold: rng.chance(1, 2) },
         2 => AOp::AutoFilter { sheet, range: format!("A{}:D{}", r, r + 5) },
         3 => AOp::TabColor { sheet, argb: ["FFFF0000", "FF00B050", "FF0070C0", "FF7030A0"][rng.usize(4)].to_string() },
         4 => AOp::Freeze { sheet, cols: rng.below(3) as u32, rows: 1 + rng.below(3) as u32 },
